@@ -590,3 +590,730 @@ Proof.
   rewrite run_cons. cbn [In] in Hn. apply IH; [tauto|].
   apply eff_tracked with s a; [apply step_eff | intros Heq; apply Hn; left; exact Heq | exact Ht].
 Qed.
+
+(* ------------------------------------------------------------------ the property *)
+
+Definition fresh (e : env) (tr : list action) : Prop := ~ In (APut e) tr.
+
+Definition nowhere (e : env) (s : state) : Prop :=
+  inC e s = 0 /\ inF e s = 0 /\ inD e s = 0 /\ inH e s = 0 /\ inX e s = 0.
+
+Lemma inD_zero_cntp : forall e s, inD e s = 0 -> forall c, cntp (c, e) (dlog s) = 0.
+Proof. intros e s H c. pose proof (cntp_le c e (dlog s)). unfold inD in H. lia. Qed.
+
+Lemma fresh_nowhere : forall e tr, fresh e tr -> nowhere e (run init tr).
+Proof.
+  intros e tr Hf.
+  destruct (run_quiet e tr init Hf) as [[Q1 Q2] [_ [Q3 [Q4 Q5]]]]; [split; reflexivity|].
+  unfold nowhere. repeat split; assumption.
+Qed.
+
+Lemma NoDup_map_filter : forall {A B} (f : A -> B) (p : A -> bool) l, NoDup (map f l) -> NoDup (map f (filter p l)).
+Proof.
+  intros A B f p l. induction l as [|x l IH]; intros H; [constructor|].
+  cbn [map] in H. inversion H; subst. cbn [filter]. destruct (p x).
+  - cbn [map]. constructor; [|apply IH; assumption].
+    intros Hin. apply H2. apply in_map_iff in Hin. destruct Hin as [y [Hy Hin]]. apply filter_In in Hin.
+    apply in_map_iff. exists y. tauto.
+  - apply IH; assumption.
+Qed.
+
+Lemma cntp_fan : forall c e l, NoDup l ->
+  cntp (c, e) (map (fun c' => (c', e)) l) = if memn c l then 1 else 0.
+Proof.
+  intros c e l. induction l as [|x l IH]; intros Hn; [reflexivity|].
+  inversion Hn; subst. cbn [map]. rewrite cntp_cons, (IH H2).
+  unfold memn. cbn [existsb]. fold (memn c l).
+  destruct (pe_dec (x, e) (c, e)) as [Heq|Hne].
+  - inversion Heq; subst x. rewrite Nat.eqb_refl. cbn [orb].
+    destruct (memn c l) eqn:Hm; [apply memn_In in Hm; tauto | reflexivity].
+  - destruct (Nat.eqb c x) eqn:Hcx; [apply Nat.eqb_eq in Hcx; subst; congruence|]. reflexivity.
+Qed.
+
+Lemma run_put_split : forall tr1 e tr2, run init (tr1 ++ APut e :: tr2) = run (fst (put (run init tr1) e)) tr2.
+Proof. intros. rewrite run_app. reflexivity. Qed.
+
+(* fan-out: exactly once to each consumer subscribed with a matching predicate at that moment,
+   to nobody else, neither cached nor handled by default *)
+Lemma put_fanout : forall tr1 e tr2,
+  fresh e tr1 -> fresh e tr2 ->
+  let s1 := run init tr1 in
+  let s2 := run init (tr1 ++ APut e :: tr2) in
+  closed s1 = false -> matching s1 e <> [] ->
+  (forall c, cntp (c, e) (dlog s2) = if memn c (matching s1 e) then 1 else 0) /\
+  inC e s2 = 0 /\ inF e s2 = 0 /\ inH e s2 = 0 /\ inX e s2 = 0.
+Proof.
+  intros tr1 e tr2 Hf1 Hf2 s1 s2 Hcl Hm. subst s2. rewrite run_put_split. fold s1.
+  destruct (fresh_nowhere e tr1 Hf1) as [N1 [N2 [N3 [N4 N5]]]]. fold s1 in N1, N2, N3, N4, N5.
+  pose proof (inv_reach tr1) as HI. fold s1 in HI.
+  assert (Hnd : NoDup (matching s1 e)) by (unfold matching; apply NoDup_map_filter; apply (i_nodup_subs _ HI)).
+  set (s1' := fst (put s1 e)).
+  assert (Hs1' : cache s1' = cache s1 /\ inflight s1' = inflight s1 /\ hlog s1' = hlog s1 /\ flushed s1' = flushed s1 /\
+                 dlog s1' = dlog s1 ++ map (fun c => (c, e)) (matching s1 e)).
+  { subst s1'. unfold put. rewrite Hcl. destruct (matching s1 e) eqn:Hmm; [congruence|]. simpl. repeat split; reflexivity. }
+  destruct Hs1' as [E1 [E2 [E3 [E4 E5]]]].
+  assert (Hq : quiet e s1') by (unfold quiet, inC, inF; rewrite E1, E2; split; assumption).
+  destruct (run_quiet e tr2 s1' Hf2 Hq) as [[Q1 Q2] [Q3 [_ [Q4 Q5]]]].
+  repeat split; try assumption.
+  - intros c. rewrite Q3, E5, cntp_app, (cntp_fan c e _ Hnd), (inD_zero_cntp e s1 N3 c). reflexivity.
+  - rewrite Q4. unfold inH. rewrite E3. exact N4.
+  - rewrite Q5. unfold inX. rewrite E4. exact N5.
+Qed.
+
+(* default handler: exactly once, nowhere else *)
+Lemma put_default : forall tr1 e tr2,
+  fresh e tr1 -> fresh e tr2 ->
+  let s1 := run init tr1 in
+  let s2 := run init (tr1 ++ APut e :: tr2) in
+  closed s1 = false -> matching s1 e = [] -> cache_matches s1 e = false ->
+  inH e s2 = 1 /\ inC e s2 = 0 /\ inF e s2 = 0 /\ inX e s2 = 0 /\ (forall c, cntp (c, e) (dlog s2) = 0).
+Proof.
+  intros tr1 e tr2 Hf1 Hf2 s1 s2 Hcl Hm Hc. subst s2. rewrite run_put_split. fold s1.
+  destruct (fresh_nowhere e tr1 Hf1) as [N1 [N2 [N3 [N4 N5]]]]. fold s1 in N1, N2, N3, N4, N5.
+  set (s1' := fst (put s1 e)).
+  assert (Hs1' : cache s1' = cache s1 /\ inflight s1' = inflight s1 /\ hlog s1' = hlog s1 ++ [e] /\ flushed s1' = flushed s1 /\
+                 dlog s1' = dlog s1).
+  { subst s1'. unfold put. rewrite Hcl, Hm, Hc. simpl. repeat split; reflexivity. }
+  destruct Hs1' as [E1 [E2 [E3 [E4 E5]]]].
+  assert (Hq : quiet e s1') by (unfold quiet, inC, inF; rewrite E1, E2; split; assumption).
+  destruct (run_quiet e tr2 s1' Hf2 Hq) as [[Q1 Q2] [Q3 [_ [Q4 Q5]]]].
+  repeat split; try assumption.
+  - rewrite Q4. unfold inH in *. rewrite E3, cnt_app, cnt_cons, N4. destruct (env_dec e e); [reflexivity | congruence].
+  - rewrite Q5. unfold inX. rewrite E4. exact N5.
+  - intros c. rewrite Q3, E5. apply inD_zero_cntp. exact N3.
+Qed.
+
+(* put into a closed relay: dropped *)
+Lemma put_closed : forall tr1 e tr2,
+  fresh e tr1 -> fresh e tr2 ->
+  let s1 := run init tr1 in
+  let s2 := run init (tr1 ++ APut e :: tr2) in
+  closed s1 = true -> nowhere e s2.
+Proof.
+  intros tr1 e tr2 Hf1 Hf2 s1 s2 Hcl. subst s2. rewrite run_put_split. fold s1.
+  destruct (fresh_nowhere e tr1 Hf1) as [N1 [N2 [N3 [N4 N5]]]]. fold s1 in N1, N2, N3, N4, N5.
+  assert (Hp : fst (put s1 e) = s1) by (unfold put; rewrite Hcl; reflexivity). rewrite Hp.
+  destruct (run_quiet e tr2 s1 Hf2 (conj N1 N2)) as [[Q1 Q2] [_ [Q3 [Q4 Q5]]]].
+  unfold nowhere. repeat split; congruence.
+Qed.
+
+(* cache: kept, then handed exactly once to the first later subscriber with a matching predicate *)
+Lemma put_cached_tracked : forall tr1 e tr2,
+  fresh e tr1 -> fresh e tr2 ->
+  let s1 := run init tr1 in
+  let s2 := run init (tr1 ++ APut e :: tr2) in
+  closed s1 = false -> matching s1 e = [] -> cache_matches s1 e = true ->
+  tracked e (shist s1) s2.
+Proof.
+  intros tr1 e tr2 Hf1 Hf2 s1 s2 Hcl Hm Hc. subst s2. rewrite run_put_split. fold s1.
+  destruct (fresh_nowhere e tr1 Hf1) as [N1 [N2 [N3 [N4 N5]]]]. fold s1 in N1, N2, N3, N4, N5.
+  apply run_tracked; [exact Hf2|].
+  unfold put. rewrite Hcl, Hm, Hc. cbn [fst].
+  apply TrCached with (mid := []); unfold inC, inF, inD, inH, inX in *; simpl; try assumption.
+  - symmetry. apply app_nil_r.
+  - intros c p [].
+  - rewrite cnt_app, cnt_cons, N1. destruct (env_dec e e); [reflexivity | congruence].
+Qed.
+
+Lemma cntp_two : forall c c' e l, c <> c' -> cntp (c, e) l + cntp (c', e) l <= cnt e (map snd l).
+Proof.
+  intros c c' e l Hne. induction l as [|[c1 e1] l IH]; [apply Nat.le_refl|].
+  cbn [map snd]. rewrite !cntp_cons, cnt_cons.
+  destruct (pe_dec (c1, e1) (c, e)) as [H|H]; destruct (pe_dec (c1, e1) (c', e)) as [H'|H'];
+    destruct (env_dec e1 e) as [H''|H'']; try lia; exfalso;
+    repeat match goal with Hq : (_, _) = (_, _) |- _ => inversion Hq; clear Hq end; congruence.
+Qed.
+
+Definition cached_outcome (e : env) (h0 : list (cid * pred)) (s : state) : Prop :=
+  inH e s = 0 /\
+  ( (* still in the cache, every subscription since the put rejected it *)
+    (inC e s = 1 /\ inF e s = 0 /\ inD e s = 0 /\ inX e s = 0 /\
+     exists mid, shist s = h0 ++ mid /\ rejects e mid)
+    \/ (* taken by the first later subscription with a matching predicate: in flight or handed over, once, to it alone *)
+    (exists mid c p rest, shist s = h0 ++ mid ++ (c, p) :: rest /\ rejects e mid /\ p e = true /\
+       inC e s = 0 /\ inX e s = 0 /\
+       forall c', cntp (c', e) (inflight s) + cntp (c', e) (dlog s) = if Nat.eqb c' c then 1 else 0)
+    \/ (* still cached when the relay was closed: dropped by Close, which reports it *)
+    (inX e s = 1 /\ inC e s = 0 /\ inF e s = 0 /\ inD e s = 0) ).
+
+Lemma tracked_outcome : forall e h0 s, tracked e h0 s -> cached_outcome e h0 s.
+Proof.
+  intros e h0 s Ht. unfold cached_outcome.
+  destruct Ht as [mid Hh Hrej HC HF HD HH HX | mid c p rest Hh Hrej Hp HC HH HX HFD Hcp | HC HF HD HH HX].
+  - split; [exact HH|]. left. repeat split; try assumption. exists mid. split; assumption.
+  - split; [exact HH|]. right. left. exists mid, c, p, rest. repeat split; try assumption.
+    intros c'. destruct (Nat.eqb c' c) eqn:Hcc.
+    + apply Nat.eqb_eq in Hcc. subst c'. exact Hcp.
+    + apply Nat.eqb_neq in Hcc.
+      pose proof (cntp_two c' c e (inflight s) Hcc). pose proof (cntp_two c' c e (dlog s) Hcc).
+      unfold inF, inD in HFD. lia.
+  - split; [exact HH|]. right. right. repeat split; assumption.
+Qed.
+
+Lemma put_cached : forall tr1 e tr2,
+  fresh e tr1 -> fresh e tr2 ->
+  let s1 := run init tr1 in
+  let s2 := run init (tr1 ++ APut e :: tr2) in
+  closed s1 = false -> matching s1 e = [] -> cache_matches s1 e = true ->
+  cached_outcome e (shist s1) s2.
+Proof. intros. apply tracked_outcome. apply put_cached_tracked; assumption. Qed.
+
+(* never to a consumer whose predicate rejects it; only to consumers that subscribed *)
+Lemma never_rejecting : forall tr c p e,
+  let s := run init tr in
+  In (c, p) (shist s) -> p e = false -> ~ In (c, e) (dlog s) /\ ~ In (c, e) (inflight s).
+Proof.
+  intros tr c p e s Hin Hp. pose proof (inv_reach tr) as HI. fold s in HI.
+  assert (H : forall q, In (c, q) (shist s) -> q = p).
+  { intros q Hq. pose proof (i_nodup_hist _ HI) as Hn.
+    clear - Hq Hin Hn. induction (shist s) as [|[c1 p1] l IH]; [destruct Hin|].
+    cbn [map fst] in Hn. inversion Hn; subst. destruct Hin as [Hin|Hin]; destruct Hq as [Hq|Hq].
+    - congruence.
+    - inversion Hin; subst. exfalso. apply H1. apply in_map_iff. exists (c, q). split; [reflexivity | exact Hq].
+    - inversion Hq; subst. exfalso. apply H1. apply in_map_iff. exists (c, p). split; [reflexivity | exact Hin].
+    - apply IH; assumption. }
+  split; intros Hd.
+  - destruct (i_match _ HI c e (or_intror Hd)) as [q [Hq1 Hq2]]. rewrite (H q Hq1) in Hq2. congruence.
+  - destruct (i_match _ HI c e (or_introl Hd)) as [q [Hq1 Hq2]]. rewrite (H q Hq1) in Hq2. congruence.
+Qed.
+
+Lemma only_subscribers : forall tr c e,
+  let s := run init tr in In (c, e) (dlog s) -> exists p, In (c, p) (shist s) /\ p e = true.
+Proof.
+  intros tr c e s Hd. apply (i_match _ (inv_reach tr)). right. exact Hd.
+Qed.
+
+(* ------------------------------------------------------------------ no duplicates, for every trace that puts each envelope once *)
+
+Definition puts (tr : list action) : list env :=
+  flat_map (fun a => match a with APut e => [e] | _ => [] end) tr.
+
+Lemma puts_app : forall t1 t2, puts (t1 ++ t2) = puts t1 ++ puts t2.
+Proof. intros. unfold puts. apply flat_map_app. Qed.
+
+Lemma puts_in : forall e tr, In (APut e) tr <-> In e (puts tr).
+Proof.
+  intros e tr. unfold puts. rewrite in_flat_map. split.
+  - intros H. exists (APut e). split; [exact H | left; reflexivity].
+  - intros [a [Ha Hin]]. destruct a; cbn [In] in Hin; try contradiction.
+    destruct Hin as [Hin|[]]. subst. exact Ha.
+Qed.
+
+Lemma puts_split : forall tr e, NoDup (puts tr) -> In (APut e) tr ->
+  exists tr1 tr2, tr = tr1 ++ APut e :: tr2 /\ fresh e tr1 /\ fresh e tr2.
+Proof.
+  intros tr e Hn Hin. destruct (in_split _ _ Hin) as [tr1 [tr2 Ht]]. exists tr1, tr2. split; [exact Ht|].
+  subst tr. rewrite puts_app in Hn. cbn [puts flat_map] in Hn. fold (puts tr2) in Hn. cbn [app] in Hn.
+  apply NoDup_remove_2 in Hn. unfold fresh. rewrite !puts_in. split; intros H; apply Hn; apply in_or_app; tauto.
+Qed.
+
+Lemma at_most_once : forall tr e, NoDup (puts tr) ->
+  let s := run init tr in
+  (forall c, cntp (c, e) (dlog s) <= 1) /\ inH e s <= 1 /\
+  (inH e s = 1 -> forall c, cntp (c, e) (dlog s) = 0).
+Proof.
+  intros tr e Hn s.
+  destruct (in_dec env_dec e (puts tr)) as [Hin|Hnin].
+  - apply puts_in in Hin. destruct (puts_split tr e Hn Hin) as [tr1 [tr2 [Ht [Hf1 Hf2]]]].
+    subst s. rewrite Ht. set (s1 := run init tr1). set (s2 := run init (tr1 ++ APut e :: tr2)).
+    destruct (closed s1) eqn:Hcl.
+    + destruct (put_closed tr1 e tr2 Hf1 Hf2 Hcl) as [N1 [N2 [N3 [N4 N5]]]]. fold s2 in N1, N2, N3, N4, N5.
+      pose proof (inD_zero_cntp e s2 N3) as Hz. repeat split.
+      * intros c. rewrite Hz. lia.
+      * lia.
+      * intros _. exact Hz.
+    + destruct (matching s1 e) as [|c0 tos] eqn:Hm.
+      * destruct (cache_matches s1 e) eqn:Hc.
+        -- destruct (put_cached tr1 e tr2 Hf1 Hf2 Hcl Hm Hc) as [HH Hd]. fold s1 s2 in HH, Hd.
+           repeat split; [| lia | intros; lia].
+           intros c. destruct Hd as [[_ [_ [HD _]]] | [[mid [c1 [p [rest [_ [_ [_ [_ [_ Hc1]]]]]]]]] | [_ [_ [_ HD]]]]].
+           ++ rewrite (inD_zero_cntp e s2 HD). lia.
+           ++ specialize (Hc1 c). destruct (Nat.eqb c c1); lia.
+           ++ rewrite (inD_zero_cntp e s2 HD). lia.
+        -- destruct (put_default tr1 e tr2 Hf1 Hf2 Hcl Hm Hc) as [HH [_ [_ [_ Hz]]]]. fold s2 in HH, Hz.
+           repeat split; [intros c; rewrite Hz; lia | lia | intros _; exact Hz].
+      * assert (Hne : matching s1 e <> []) by (rewrite Hm; discriminate).
+        destruct (put_fanout tr1 e tr2 Hf1 Hf2 Hcl Hne) as [Hz [_ [_ [HH _]]]]. fold s1 s2 in Hz, HH.
+        repeat split; [| lia | intros; lia].
+        intros c. rewrite Hz. destruct (memn c (matching s1 e)); lia.
+  - assert (Hf : fresh e tr) by (unfold fresh; rewrite puts_in; exact Hnin).
+    destruct (fresh_nowhere e tr Hf) as [N1 [N2 [N3 [N4 N5]]]]. fold s in N1, N2, N3, N4, N5.
+    pose proof (inD_zero_cntp e s N3) as Hz.
+    repeat split; [intros c; rewrite Hz; lia | lia | intros _; exact Hz].
+Qed.
+
+(* ------------------------------------------------------------------ the finer model *)
+
+Definition lost_update_schedule : list faction :=
+  [ FWriter (ACache 0 (tagset [4]));
+    FBegin 1 (4, 1); FBegin 2 (4, 2);     (* two producers, both hold the read lock *)
+    FRead 1; FRead 2;                     (* both read the same slice *)
+    FWrite 1; FWrite 2;                   (* the second write overwrites the first *)
+    FRead 2; FWrite 2 ].                  (* (only enabled under the cache mutex: thread 2 had to wait) *)
+
+(* the code before the repair: append under the read lock only *)
+Lemma finer_refuted :
+  let f := frun false finit lost_update_schedule in
+  threads f = [] /\ closed (base f) = false /\ cache (base f) = [(4, 2)] /\ nowhere (4, 1) (base f).
+Proof. vm_compute. repeat split; reflexivity. Qed.
+
+(* the repaired code on the same schedule *)
+Lemma finer_mutex_keeps_both :
+  let f := frun true finit lost_update_schedule in
+  threads f = [] /\ cache (base f) = [(4, 1); (4, 2)].
+Proof. vm_compute. split; reflexivity. Qed.
+
+(* ------------------------------------------------------------------ examples (non-vacuity) *)
+
+Definition ex_tr1 : list action :=
+  [ ASubscribe 0 (tagset [1; 2]); ASubscribe 1 (tagset [2; 3]); ACache 0 (tagset [4; 5]); APut (4, 100);
+    ASubscribe 2 (tagset [1]); ACloseConsumer 2; ADelete 2 ].
+Definition ex_tr2 : list action :=
+  [ APut (1, 101); ACloseConsumer 0; APut (2, 102); ADelete 0; APut (2, 103);
+    ASubscribe 3 (tagset [0]); ASubscribe 4 (tagset [4; 2]); ASubscribe 5 (tagset [4]); ADeliver 4;
+    ARelease 0; APut (5, 104); ACloseFlag; ACloseClear ].
+
+Lemma ex_fanout :
+  fresh (2, 7) ex_tr1 /\ fresh (2, 7) ex_tr2 /\ closed (run init ex_tr1) = false /\
+  matching (run init ex_tr1) (2, 7) = [0; 1] /\
+  dlog (run init (ex_tr1 ++ APut (2, 7) :: ex_tr2)) =
+    [(0, (2, 7)); (1, (2, 7)); (0, (1, 101)); (0, (2, 102)); (1, (2, 102)); (1, (2, 103)); (4, (4, 100))].
+Proof.
+  unfold fresh. repeat split; try (vm_compute; reflexivity);
+    intros H; cbn [ex_tr1 ex_tr2 In] in H; repeat (destruct H as [H|H]; try discriminate); exact H.
+Qed.
+
+Lemma ex_cached :
+  fresh (5, 7) ex_tr1 /\ fresh (5, 7) ex_tr2 /\ closed (run init ex_tr1) = false /\
+  matching (run init ex_tr1) (5, 7) = [] /\ cache_matches (run init ex_tr1) (5, 7) = true /\
+  flushed (run init (ex_tr1 ++ APut (5, 7) :: ex_tr2)) = [(5, 7)].
+Proof.
+  unfold fresh. repeat split; try (vm_compute; reflexivity);
+    intros H; cbn [ex_tr1 ex_tr2 In] in H; repeat (destruct H as [H|H]; try discriminate); exact H.
+Qed.
+
+(* the envelope (4,100) of ex_tr1 itself: cached, rejected by consumers 2 and 3, handed to 4, not to 5 *)
+Lemma ex_cached_handed :
+  let tr1 := firstn 3 ex_tr1 in let tr2 := skipn 4 ex_tr1 ++ ex_tr2 in
+  fresh (4, 100) tr1 /\ fresh (4, 100) tr2 /\ closed (run init tr1) = false /\
+  matching (run init tr1) (4, 100) = [] /\ cache_matches (run init tr1) (4, 100) = true /\
+  map fst (shist (run init (tr1 ++ APut (4, 100) :: tr2))) = [0; 1; 2; 3; 4; 5] /\
+  filter (fun x => env_eqb (snd x) (4, 100)) (dlog (run init (tr1 ++ APut (4, 100) :: tr2))) = [(4, (4, 100))].
+Proof.
+  unfold fresh. repeat split; try (vm_compute; reflexivity);
+    intros H; vm_compute in H; repeat (destruct H as [H|H]; try discriminate); exact H.
+Qed.
+
+Lemma ex_default :
+  fresh (0, 7) ex_tr1 /\ fresh (0, 7) ex_tr2 /\ closed (run init ex_tr1) = false /\
+  matching (run init ex_tr1) (0, 7) = [] /\ cache_matches (run init ex_tr1) (0, 7) = false /\
+  hlog (run init (ex_tr1 ++ APut (0, 7) :: ex_tr2)) = [(0, 7); (5, 104)].
+Proof.
+  unfold fresh. repeat split; try (vm_compute; reflexivity);
+    intros H; cbn [ex_tr1 ex_tr2 In] in H; repeat (destruct H as [H|H]; try discriminate); exact H.
+Qed.
+
+Lemma ex_nodup_puts : NoDup (puts (ex_tr1 ++ APut (2, 7) :: ex_tr2)) /\ length (puts (ex_tr1 ++ APut (2, 7) :: ex_tr2)) = 6.
+Proof.
+  split; [|reflexivity]. vm_compute.
+  repeat (constructor; [cbn [In]; intros H; repeat (destruct H as [H|H]; try discriminate); exact H|]). constructor.
+Qed.
+
+Lemma ex_delete_enabled :
+  snd (step (run init (firstn 6 ex_tr1)) (ADelete 2)) = OD /\
+  length (subs (run init (firstn 6 ex_tr1))) = 3 /\ length (subs (run init ex_tr1)) = 2.
+Proof. vm_compute. repeat split; reflexivity. Qed.
+
+Lemma ex_never_rejecting :
+  In (0, tagset [1; 2]) (shist (run init ex_tr1)) /\ tagset [1; 2] (4, 100) = false.
+Proof. split; [left; reflexivity | reflexivity]. Qed.
+
+(* ------------------------------------------------------------------ the finer model with the cache mutex (repaired code) *)
+
+Definition tid (x : nat * env * phase) : nat := fst (fst x).
+Definition tenv (x : nat * env * phase) : env := snd (fst x).
+
+Lemma find_thread_in : forall t l e ph, find_thread t l = Some (e, ph) -> In (t, e, ph) l.
+Proof.
+  intros t l. induction l as [|[[t' e'] ph'] l IH]; intros e ph H; [discriminate|].
+  cbn [find_thread] in H. destruct (Nat.eqb t' t) eqn:Ht.
+  - apply Nat.eqb_eq in Ht. inversion H; subst. left. reflexivity.
+  - right. apply IH. exact H.
+Qed.
+
+Lemma find_thread_none : forall t l, find_thread t l = None -> ~ In t (map tid l).
+Proof.
+  intros t l. induction l as [|[[t' e'] ph'] l IH]; intros H; [intros []|].
+  cbn [find_thread] in H. destruct (Nat.eqb t' t) eqn:Ht; [discriminate|]. apply Nat.eqb_neq in Ht.
+  cbn [map In tid fst]. intros [Hx|Hx]; [congruence | apply IH; assumption].
+Qed.
+
+Lemma find_thread_nodup : forall t l e ph, NoDup (map tid l) -> In (t, e, ph) l -> find_thread t l = Some (e, ph).
+Proof.
+  intros t l. induction l as [|[[t' e'] ph'] l IH]; intros e ph Hn Hin; [destruct Hin|].
+  cbn [map tid fst] in Hn. inversion Hn; subst. cbn [find_thread]. destruct Hin as [Hin|Hin].
+  - inversion Hin; subst. rewrite Nat.eqb_refl. reflexivity.
+  - destruct (Nat.eqb t' t) eqn:Ht.
+    + apply Nat.eqb_eq in Ht. subst t'. exfalso. apply H1. apply in_map_iff. exists (t, e, ph). split; [reflexivity | exact Hin].
+    + apply IH; assumption.
+Qed.
+
+Lemma drop_thread_in : forall t l x, In x (drop_thread t l) <-> In x l /\ tid x <> t.
+Proof.
+  intros t l x. unfold drop_thread. rewrite filter_In. unfold tid.
+  destruct (Nat.eqb (fst (fst x)) t) eqn:H; cbn [negb].
+  - apply Nat.eqb_eq in H. split; [intros [_ Hf]; discriminate | intros [_ Hf]; congruence].
+  - apply Nat.eqb_neq in H. tauto.
+Qed.
+
+Lemma drop_thread_nodup : forall t l, NoDup (map tid l) -> NoDup (map tid (drop_thread t l)) /\ ~ In t (map tid (drop_thread t l)).
+Proof.
+  intros t l Hn. split.
+  - unfold drop_thread. apply NoDup_map_filter. exact Hn.
+  - intros Hin. apply in_map_iff in Hin. destruct Hin as [x [Hx Hin]]. apply drop_thread_in in Hin. tauto.
+Qed.
+
+Record FInv (f : fstate) : Prop := mkFInv {
+  fi_nodup : NoDup (map tid (threads f));
+  fi_seen : forall t e seen, In (t, e, PhRead seen) (threads f) -> seen = cache (base f);
+  fi_one : forall x y, In x (threads f) -> In y (threads f) ->
+             holds_cache_mutex x = true -> holds_cache_mutex y = true -> x = y
+}.
+
+Lemma finv_init : FInv finit.
+Proof. constructor; cbn; [constructor | intros ? ? ? [] | intros ? ? []]. Qed.
+
+(* actions that do not take the write lock leave the cache alone *)
+Lemma lockfree_cache : forall s a, needs_write_lock a = false -> (forall e, a <> APut e) ->
+  cache (fst (step s a)) = cache s.
+Proof.
+  intros s a Hn Hp. destruct a; try discriminate; cbn [step].
+  - exfalso. eapply Hp. reflexivity.
+  - unfold close_consumer. destruct (memn c (cclosed s)); [reflexivity|].
+    destruct (memn c (map fst (shist s))); reflexivity.
+  - unfold deliver. destruct (take_first c (inflight s)) as [[e r]|]; reflexivity.
+  - unfold close_flag. destruct (closed s); reflexivity.
+Qed.
+
+Lemma put_cache_unchanged : forall s e, (matching s e <> [] \/ cache_matches s e = false) ->
+  cache (fst (put s e)) = cache s.
+Proof.
+  intros s e H. unfold put. destruct (closed s); [reflexivity|].
+  destruct (matching s e) eqn:Hm.
+  - destruct H as [H|H]; [congruence|]. rewrite H. reflexivity.
+  - reflexivity.
+Qed.
+
+Lemma holds_false_of_none : forall l, existsb holds_cache_mutex l = false -> forall x, In x l -> holds_cache_mutex x = false.
+Proof.
+  intros l H x Hin. destruct (holds_cache_mutex x) eqn:Hx; [|reflexivity].
+  assert (existsb holds_cache_mutex l = true) by (apply existsb_exists; exists x; split; assumption). congruence.
+Qed.
+
+Lemma finv_step : forall f a, FInv f -> FInv (fstep true f a).
+Proof.
+  intros f a [H1 H2 H3]. destruct a as [t e | t | t | a]; cbn [fstep].
+  - (* FBegin *)
+    destruct (find_thread t (threads f)) eqn:Hft; [constructor; assumption|].
+    destruct (closed (base f)) eqn:Hcl; [constructor; assumption|].
+    destruct (matching (base f) e) eqn:Hm.
+    + destruct (cache_matches (base f) e) eqn:Hc.
+      * constructor; cbn [threads base].
+        -- rewrite map_app. cbn [map tid fst]. apply NoDup_snoc; [exact H1 | apply find_thread_none; exact Hft].
+        -- intros t0 e0 seen Hin. apply in_app_or in Hin. destruct Hin as [Hin|[Hin|[]]]; [eapply H2; exact Hin | discriminate].
+        -- intros x y Hx Hy Hhx Hhy. apply in_app_or in Hx. apply in_app_or in Hy.
+           destruct Hx as [Hx|[Hx|[]]]; [|subst x; discriminate].
+           destruct Hy as [Hy|[Hy|[]]]; [|subst y; discriminate]. apply H3; assumption.
+      * assert (Hca : cache (fst (put (base f) e)) = cache (base f)) by (apply put_cache_unchanged; right; exact Hc).
+        constructor; cbn [threads base]; try assumption. intros t0 e0 seen Hin. rewrite Hca. eapply H2; exact Hin.
+    + assert (Hca : cache (fst (put (base f) e)) = cache (base f)) by (apply put_cache_unchanged; left; rewrite Hm; discriminate).
+      constructor; cbn [threads base]; try assumption. intros t0 e0 seen Hin. rewrite Hca. eapply H2; exact Hin.
+  - (* FRead *)
+    destruct (find_thread t (threads f)) as [[e [|seen]]|] eqn:Hft; try (constructor; assumption).
+    cbn [andb]. destruct (existsb holds_cache_mutex (threads f)) eqn:Hex; [constructor; assumption|].
+    pose proof (holds_false_of_none _ Hex) as Hnone.
+    destruct (drop_thread_nodup t _ H1) as [Hd1 Hd2].
+    constructor; cbn [threads base].
+    + rewrite map_app. cbn [map tid fst]. apply NoDup_snoc; assumption.
+    + intros t0 e0 seen Hin. apply in_app_or in Hin. destruct Hin as [Hin|[Hin|[]]].
+      * apply drop_thread_in in Hin. eapply H2. apply Hin.
+      * inversion Hin; subst. reflexivity.
+    + intros x y Hx Hy Hhx Hhy. apply in_app_or in Hx. apply in_app_or in Hy.
+      destruct Hx as [Hx|[Hx|[]]]; [apply drop_thread_in in Hx; rewrite (Hnone x) in Hhx; [discriminate | tauto]|].
+      destruct Hy as [Hy|[Hy|[]]]; [apply drop_thread_in in Hy; rewrite (Hnone y) in Hhy; [discriminate | tauto]|].
+      congruence.
+  - (* FWrite *)
+    destruct (find_thread t (threads f)) as [[e [|seen]]|] eqn:Hft; try (constructor; assumption).
+    apply find_thread_in in Hft.
+    destruct (drop_thread_nodup t _ H1) as [Hd1 Hd2].
+    assert (Hno : forall y, In y (drop_thread t (threads f)) -> holds_cache_mutex y = false).
+    { intros y Hy. apply drop_thread_in in Hy. destruct Hy as [Hy Hne].
+      destruct (holds_cache_mutex y) eqn:Hh; [|reflexivity]. exfalso. apply Hne.
+      rewrite <- (H3 (t, e, PhRead seen) y Hft Hy eq_refl Hh). reflexivity. }
+    constructor; cbn [threads base].
+    + exact Hd1.
+    + intros t0 e0 seen0 Hin. apply Hno in Hin. discriminate.
+    + intros x y Hx Hy Hhx Hhy. apply Hno in Hx. congruence.
+  - (* FWriter *)
+    destruct a; try (constructor; assumption);
+    match goal with
+    | |- FInv (if ?b then _ else _) => destruct b eqn:Hb; [constructor; assumption|]
+    end.
+    all: destruct (threads f) as [|x l] eqn:Hth;
+      [ constructor; cbn [threads base]; rewrite ?Hth; [constructor | intros ? ? ? [] | intros ? ? []] | ].
+    all: cbn [needs_write_lock andb negb] in Hb; try discriminate.
+    all: constructor; cbn [threads base]; rewrite ?Hth; try assumption.
+    all: intros t0 e0 seen Hin; rewrite lockfree_cache; [eapply H2; exact Hin | reflexivity | intros; discriminate].
+Qed.
+
+Lemma eff_nowhere : forall e s s' a, eff s s' a -> a <> APut e -> nowhere e s -> nowhere e s'.
+Proof.
+  intros e s s' a He Hne [N1 [N2 [N3 [N4 N5]]]].
+  destruct (eff_quiet e s s' a He Hne (conj N1 N2)) as [[Q1 Q2] [_ [Q3 [Q4 Q5]]]].
+  unfold nowhere. repeat split; congruence.
+Qed.
+
+Lemma eff_shist : forall s s' a, eff s s' a -> (forall c p, a <> ASubscribe c p) -> shist s' = shist s.
+Proof.
+  intros s s' a He Hn. destruct He; try assumption. exfalso. eapply Hn. reflexivity.
+Qed.
+
+(* every step of the finer model (with the mutex) acts on the relay state like one coarse action;
+   it is a put of e only if it is the FBegin of e or the FWrite of a thread carrying e *)
+Lemma fstep_eff : forall f a, FInv f ->
+  exists a', eff (base f) (base (fstep true f a)) a' /\
+    (forall c p, a' = ASubscribe c p -> threads f = []) /\
+    (forall e, a' = APut e -> (exists t, a = FBegin t e) \/ (exists t ph, a = FWrite t /\ In (t, e, ph) (threads f))).
+Proof.
+  intros f a HF.
+  assert (Hsame : forall s, exists a', eff s s a' /\ (forall c p, a' = ASubscribe c p -> threads f = []) /\
+            (forall e, a' = APut e -> (exists t, a = FBegin t e) \/ (exists t ph, a = FWrite t /\ In (t, e, ph) (threads f)))).
+  { intros s. exists ACloseFlag. split; [apply EffSame; reflexivity|]. split; intros; discriminate. }
+  destruct a as [t e | t | t | a]; cbn [fstep].
+  - destruct (find_thread t (threads f)); [apply Hsame|].
+    destruct (closed (base f)); [apply Hsame|].
+    assert (Hput : exists a', eff (base f) (fst (put (base f) e)) a' /\ (forall c p, a' = ASubscribe c p -> threads f = []) /\
+            (forall e0, a' = APut e0 -> (exists t0, FBegin t e = FBegin t0 e0) \/ (exists t0 ph, FBegin t e = FWrite t0 /\ In (t0, e0, ph) (threads f)))).
+    { exists (APut e). split; [apply (step_eff (base f) (APut e))|]. split; [intros; discriminate|].
+      intros e0 Heq. inversion Heq; subst. left. exists t. reflexivity. }
+    destruct (matching (base f) e); [|exact Hput].
+    destruct (cache_matches (base f) e); [apply Hsame | exact Hput].
+  - destruct (find_thread t (threads f)) as [[e [|seen]]|]; try apply Hsame.
+    destruct (true && existsb holds_cache_mutex (threads f)); apply Hsame.
+  - destruct (find_thread t (threads f)) as [[e [|seen]]|] eqn:Hft; try apply Hsame.
+    apply find_thread_in in Hft. pose proof (fi_seen _ HF _ _ _ Hft) as Hseen. subst seen.
+    exists (APut e). split; [|split; [intros; discriminate|]].
+    + apply EffPut with (c1 := [e]) (d1 := []) (h1 := []); simpl; try reflexivity;
+        try (symmetry; apply app_nil_r); try (intros ? Hf; simpl in Hf; contradiction).
+      intros x [Hx|[]]. congruence.
+    + intros e0 Heq. inversion Heq; subst. right. exists t, (PhRead (cache (base f))). split; [reflexivity | exact Hft].
+  - destruct a; try apply Hsame;
+    match goal with
+    | |- context [if ?b then _ else _] => destruct b eqn:Hb; [apply Hsame|]
+    end; cbn [base].
+    all: match goal with
+         | |- context [step (base ?g) ?a0] => exists a0; split; [apply step_eff|]; split; [|intros; discriminate]
+         end.
+    all: intros c0 p0 Heq; try discriminate.
+    cbn [needs_write_lock andb] in Hb. destruct (threads f); [reflexivity | discriminate].
+Qed.
+
+(* following the envelope of thread t through the finer model *)
+Definition in_progress (e : env) (t : nat) (h0 : list (cid * pred)) (f : fstate) : Prop :=
+  (exists ph, In (t, e, ph) (threads f)) /\ nowhere e (base f) /\ shist (base f) = h0 /\
+  (forall x, In x (threads f) -> tid x <> t -> tenv x <> e).
+
+Definition completed (e : env) (h0 : list (cid * pred)) (f : fstate) : Prop :=
+  (forall x, In x (threads f) -> tenv x <> e) /\ tracked e h0 (base f).
+
+Lemma threads_fstep_env : forall f a e, FInv f -> (forall t, a <> FBegin t e) ->
+  forall x, In x (threads (fstep true f a)) -> tenv x = e -> exists y, In y (threads f) /\ tid y = tid x /\ tenv y = e.
+Proof.
+  intros f a e HF Hne x Hin Hx. destruct a as [t e1 | t | t | a]; cbn [fstep] in Hin.
+  - destruct (find_thread t (threads f)); [exists x; auto|].
+    destruct (closed (base f)); [exists x; auto|].
+    destruct (matching (base f) e1); [|exists x; auto].
+    destruct (cache_matches (base f) e1); [|exists x; auto].
+    cbn [threads] in Hin. apply in_app_or in Hin. destruct Hin as [Hin|[Hin|[]]]; [exists x; auto|].
+    subst x. cbn [tenv fst snd] in Hx. subst e1. exfalso. eapply Hne. reflexivity.
+  - destruct (find_thread t (threads f)) as [[e1 [|seen]]|] eqn:Hft; try (exists x; auto; fail).
+    destruct (true && existsb holds_cache_mutex (threads f)); [exists x; auto|].
+    cbn [threads] in Hin. apply in_app_or in Hin. destruct Hin as [Hin|[Hin|[]]].
+    + apply drop_thread_in in Hin. exists x. tauto.
+    + subst x. apply find_thread_in in Hft. exists (t, e1, PhWantCache). auto.
+  - destruct (find_thread t (threads f)) as [[e1 [|seen]]|] eqn:Hft; try (exists x; auto; fail).
+    cbn [threads] in Hin. apply drop_thread_in in Hin. exists x. tauto.
+  - destruct a; try (exists x; auto; fail);
+    match type of Hin with
+    | context [if ?b then _ else _] => destruct b; exists x; auto
+    end.
+Qed.
+
+Lemma completed_step : forall e h0 f a, FInv f -> (forall t, a <> FBegin t e) ->
+  completed e h0 f -> completed e h0 (fstep true f a).
+Proof.
+  intros e h0 f a HF Hne [Hth Htr]. split.
+  - intros x Hin Hx. destruct (threads_fstep_env f a e HF Hne x Hin Hx) as [y [Hy [_ Hye]]].
+    apply (Hth y Hy Hye).
+  - destruct (fstep_eff f a HF) as [a' [He [_ Hlab]]].
+    apply eff_tracked with (base f) a'; [exact He | | exact Htr].
+    intros Heq. destruct (Hlab e Heq) as [[t Ht]|[t [ph [_ Hin]]]].
+    + eapply Hne. exact Ht.
+    + apply (Hth _ Hin). reflexivity.
+Qed.
+
+Lemma absent_step : forall e f a, FInv f -> (forall t, a <> FBegin t e) ->
+  (forall x, In x (threads f) -> tenv x <> e) /\ nowhere e (base f) ->
+  (forall x, In x (threads (fstep true f a)) -> tenv x <> e) /\ nowhere e (base (fstep true f a)).
+Proof.
+  intros e f a HF Hne [Hth Hno]. split.
+  - intros x Hin Hx. destruct (threads_fstep_env f a e HF Hne x Hin Hx) as [y [Hy [_ Hye]]].
+    apply (Hth y Hy Hye).
+  - destruct (fstep_eff f a HF) as [a' [He [_ Hlab]]].
+    apply eff_nowhere with (base f) a'; [exact He | | exact Hno].
+    intros Heq. destruct (Hlab e Heq) as [[t Ht]|[t [ph [_ Hin]]]].
+    + eapply Hne. exact Ht.
+    + apply (Hth _ Hin). reflexivity.
+Qed.
+
+Lemma in_progress_step : forall e t h0 f a, FInv f -> (forall t', a <> FBegin t' e) ->
+  in_progress e t h0 f -> in_progress e t h0 (fstep true f a) \/ completed e h0 (fstep true f a).
+Proof.
+  intros e t h0 f a HF Hne [[ph Hin] [Hno [Hsh Hoth]]].
+  pose proof (fi_nodup _ HF) as Hnd.
+  pose proof (find_thread_nodup _ _ _ _ Hnd Hin) as Hft.
+  (* is this the write of thread t itself? *)
+  destruct (match a with FWrite t' => Nat.eqb t' t | _ => false end) eqn:Hw.
+  - destruct a as [| | t' |]; try discriminate. apply Nat.eqb_eq in Hw. subst t'.
+    cbn [fstep]. rewrite Hft. destruct ph as [|seen].
+    + left. split; [exists PhWantCache; exact Hin|]. split; [exact Hno|]. split; [exact Hsh | exact Hoth].
+    + right. pose proof (fi_seen _ HF _ _ _ Hin) as Hs. subst seen. split.
+      * cbn [threads]. intros x Hx Hxe. apply drop_thread_in in Hx. destruct Hx as [Hx Hxt]. apply (Hoth x Hx Hxt Hxe).
+      * cbn [base]. destruct Hno as [N1 [N2 [N3 [N4 N5]]]].
+        apply TrCached with (mid := []); unfold inC, inF, inD, inH, inX in *; simpl; try assumption.
+        -- rewrite app_nil_r. exact Hsh.
+        -- intros c p [].
+        -- rewrite cnt_app, cnt_cons, N1. destruct (env_dec e e); [reflexivity | congruence].
+  - (* any other step: thread t stays, e stays nowhere, no subscription can happen *)
+    left.
+    destruct (fstep_eff f a HF) as [a' [He [Hsub Hlab]]].
+    assert (Ha' : a' <> APut e).
+    { intros Heq. destruct (Hlab e Heq) as [[t0 Ht0]|[t0 [ph0 [Ha Hin0]]]].
+      - eapply Hne. exact Ht0.
+      - subst a. destruct (Nat.eq_dec t0 t) as [Htt|Htt]; [subst; rewrite Nat.eqb_refl in Hw; discriminate|].
+        apply (Hoth _ Hin0 Htt). reflexivity. }
+    assert (Hth : (exists ph', In (t, e, ph') (threads (fstep true f a))) /\
+                  (forall x, In x (threads (fstep true f a)) -> tid x <> t -> tenv x <> e)).
+    { split.
+      - destruct a as [t1 e1 | t1 | t1 | a1]; cbn [fstep].
+        + destruct (find_thread t1 (threads f)); [exists ph; exact Hin|].
+          destruct (closed (base f)); [exists ph; exact Hin|].
+          destruct (matching (base f) e1); [|exists ph; exact Hin].
+          destruct (cache_matches (base f) e1); [|exists ph; exact Hin].
+          exists ph. cbn [threads]. apply in_or_app. left. exact Hin.
+        + destruct (find_thread t1 (threads f)) as [[e1 [|seen]]|] eqn:Hft1; try (exists ph; exact Hin).
+          destruct (true && existsb holds_cache_mutex (threads f)); [exists ph; exact Hin|].
+          cbn [threads]. destruct (Nat.eq_dec t1 t) as [Htt|Htt].
+          * subst t1. rewrite Hft in Hft1. inversion Hft1; subst. exists (PhRead (cache (base f))).
+            apply in_or_app. right. left. reflexivity.
+          * exists ph. apply in_or_app. left. apply drop_thread_in. split; [exact Hin | cbn [tid fst]; congruence].
+        + destruct (find_thread t1 (threads f)) as [[e1 [|seen]]|] eqn:Hft1; try (exists ph; exact Hin).
+          cbn [threads]. exists ph. apply drop_thread_in. split; [exact Hin|]. cbn [tid fst].
+          intros Heq. subst t1. rewrite Nat.eqb_refl in Hw. discriminate.
+        + destruct a1; try (exists ph; exact Hin);
+          match goal with
+          | |- context [if ?b then _ else _] => destruct b; exists ph; exact Hin
+          end.
+      - intros x Hx Hxt Hxe. destruct (threads_fstep_env f a e HF Hne x Hx Hxe) as [y [Hy [Hyt Hye]]].
+        apply (Hoth y Hy); congruence. }
+    destruct Hth as [Hth1 Hth2].
+    split; [exact Hth1|]. split; [apply eff_nowhere with (base f) a'; assumption|]. split; [|exact Hth2].
+    rewrite <- Hsh. apply eff_shist with a'; [exact He|].
+    intros c p Heq. pose proof (Hsub c p Heq) as Hnil. rewrite Hnil in Hin. destruct Hin.
+Qed.
+
+Definition no_begin (e : env) (tr : list faction) : Prop := forall t, ~ In (FBegin t e) tr.
+
+Lemma finv_run : forall tr f, FInv f -> FInv (frun true f tr).
+Proof.
+  induction tr as [|a tr IH]; intros f HF; [exact HF|]. cbn [frun fold_left]. apply IH. apply finv_step. exact HF.
+Qed.
+
+Lemma absent_run : forall e tr f, FInv f -> no_begin e tr ->
+  (forall x, In x (threads f) -> tenv x <> e) /\ nowhere e (base f) ->
+  (forall x, In x (threads (frun true f tr)) -> tenv x <> e) /\ nowhere e (base (frun true f tr)).
+Proof.
+  intros e tr. induction tr as [|a tr IH]; intros f HF Hn H; [exact H|].
+  cbn [frun fold_left]. apply IH.
+  - apply finv_step. exact HF.
+  - intros t Hin. apply (Hn t). right. exact Hin.
+  - apply absent_step; [exact HF | | exact H]. intros t Heq. apply (Hn t). left. exact Heq.
+Qed.
+
+Lemma completed_run : forall e h0 tr f, FInv f -> no_begin e tr -> completed e h0 f -> completed e h0 (frun true f tr).
+Proof.
+  intros e h0 tr. induction tr as [|a tr IH]; intros f HF Hn H; [exact H|].
+  cbn [frun fold_left]. apply IH.
+  - apply finv_step. exact HF.
+  - intros t Hin. apply (Hn t). right. exact Hin.
+  - apply completed_step; [exact HF | | exact H]. intros t Heq. apply (Hn t). left. exact Heq.
+Qed.
+
+Lemma in_progress_run : forall e t h0 tr f, FInv f -> no_begin e tr -> in_progress e t h0 f ->
+  in_progress e t h0 (frun true f tr) \/ completed e h0 (frun true f tr).
+Proof.
+  intros e t h0 tr. induction tr as [|a tr IH]; intros f HF Hn H; [left; exact H|].
+  cbn [frun fold_left].
+  assert (Hn' : no_begin e tr) by (intros t0 Hin; apply (Hn t0); right; exact Hin).
+  assert (Hne : forall t', a <> FBegin t' e) by (intros t' Heq; apply (Hn t'); left; exact Heq).
+  destruct (in_progress_step e t h0 f a HF Hne H) as [Hp|Hc].
+  - apply IH; [apply finv_step; exact HF | exact Hn' | exact Hp].
+  - right. apply completed_run; [apply finv_step; exact HF | exact Hn' | exact Hc].
+Qed.
+
+(* The repaired code at the finer granularity: for every schedule of the finer model with the cache
+   mutex, an envelope whose Put found the relay open, no matching subscriber and a matching cache
+   predicate is either still being put (its thread has not returned, the envelope is nowhere yet), or it
+   has exactly the outcome of the coarse theorem: nothing is lost, whatever the other producers do. *)
+Lemma finer_mutex_cached : forall tr1 t e tr2,
+  no_begin e tr1 -> no_begin e tr2 ->
+  let f1 := frun true finit tr1 in
+  let f2 := frun true f1 (FBegin t e :: tr2) in
+  find_thread t (threads f1) = None ->
+  closed (base f1) = false -> matching (base f1) e = [] -> cache_matches (base f1) e = true ->
+  ((exists ph, In (t, e, ph) (threads f2)) /\ nowhere e (base f2)) \/
+  cached_outcome e (shist (base f1)) (base f2).
+Proof.
+  intros tr1 t e tr2 Hn1 Hn2 f1 f2 Hft Hcl Hm Hc.
+  pose proof (finv_run tr1 finit finv_init) as HF1. fold f1 in HF1.
+  destruct (absent_run e tr1 finit finv_init Hn1) as [Hth Hno].
+  { split; [intros x []|]. unfold nowhere. repeat split; reflexivity. }
+  fold f1 in Hth, Hno.
+  subst f2. cbn [frun fold_left]. fold (frun true (fstep true f1 (FBegin t e)) tr2).
+  assert (Hstep : fstep true f1 (FBegin t e) = mkF (base f1) (threads f1 ++ [(t, e, PhWantCache)])).
+  { cbn [fstep]. rewrite Hft, Hcl, Hm, Hc. reflexivity. }
+  assert (HF1' : FInv (fstep true f1 (FBegin t e))) by (apply finv_step; exact HF1).
+  assert (Hip : in_progress e t (shist (base f1)) (fstep true f1 (FBegin t e))).
+  { rewrite Hstep. split; [exists PhWantCache; cbn [threads]; apply in_or_app; right; left; reflexivity|].
+    cbn [base threads]. split; [exact Hno|]. split; [reflexivity|].
+    intros x Hx Hxt Hxe. apply in_app_or in Hx. destruct Hx as [Hx|[Hx|[]]]; [apply (Hth x Hx Hxe)|].
+    subst x. apply Hxt. reflexivity. }
+  destruct (in_progress_run e t _ tr2 _ HF1' Hn2 Hip) as [[Hp [Hno2 _]]|[_ Htr]].
+  - left. split; assumption.
+  - right. apply tracked_outcome. exact Htr.
+Qed.
+
+Lemma ex_finer_mutex :
+  let tr1 := [FWriter (ACache 0 (tagset [4])); FBegin 1 (4, 1); FRead 1] in
+  let tr2 := [FBegin 3 (4, 3); FRead 2; FWrite 1; FRead 2; FWriter (ASubscribe 0 (tagset [4])); FWrite 2;
+              FRead 3; FWrite 3; FWriter (ASubscribe 0 (tagset [4]));
+              FWriter (ADeliver 0); FWriter (ADeliver 0); FWriter (ADeliver 0)] in
+  no_begin (4, 2) tr1 /\ no_begin (4, 2) tr2 /\
+  find_thread 2 (threads (frun true finit tr1)) = None /\ closed (base (frun true finit tr1)) = false /\
+  matching (base (frun true finit tr1)) (4, 2) = [] /\ cache_matches (base (frun true finit tr1)) (4, 2) = true /\
+  dlog (base (frun true finit (tr1 ++ FBegin 2 (4, 2) :: tr2))) = [(0, (4, 1)); (0, (4, 2)); (0, (4, 3))] /\
+  threads (frun true finit (tr1 ++ FBegin 2 (4, 2) :: tr2)) = [].
+Proof.
+  unfold no_begin. repeat split; try (vm_compute; reflexivity);
+    intros t H; cbn [In] in H; repeat (destruct H as [H|H]; try discriminate); exact H.
+Qed.
